@@ -114,6 +114,13 @@ impl RequestHandler for Recording {
         self.writes.lock().unwrap().push((v.index, v.value));
         Ok(())
     }
+    fn write_multiple_registers(&mut self, v: WriteRegisters) -> Result<(), ExceptionCode> {
+        let mut w = self.writes.lock().unwrap();
+        for x in v.iterator {
+            w.push((x.index, x.value));
+        }
+        Ok(())
+    }
 }
 
 /// authorization handler that allows everything and records the role it was given
@@ -140,8 +147,13 @@ pub struct TlsServer {
 }
 
 pub async fn start_tls_server(self_signed: bool, min13: bool, authz: bool, filter: AddressFilter) -> Result<TlsServer, String> {
+    start_tls_server_expecting(self_signed, min13, authz, filter, "ss_client").await
+}
+
+/// `expected_peer`: in self-signed mode, the fixture name of the one client certificate the server accepts
+pub async fn start_tls_server_expecting(self_signed: bool, min13: bool, authz: bool, filter: AddressFilter, expected_peer: &str) -> Result<TlsServer, String> {
     let (peer, local, key) = if self_signed {
-        (fixture("ss_client.cert.pem"), fixture("ss_server.cert.pem"), fixture("ss_server.key.pem"))
+        (fixture(&format!("{expected_peer}.cert.pem")), fixture("ss_server.cert.pem"), fixture("ss_server.key.pem"))
     } else {
         (fixture("ca1.cert.pem"), fixture("server_valid.cert.pem"), fixture("server_valid.key.pem"))
     };
@@ -193,7 +205,7 @@ fn is_modbus_reply(v: &Value) -> bool {
 
 pub fn c16_tls(args: &Args, rt: &tokio::runtime::Runtime, ev: &mut Evidence) {
     let seed = args.seed;
-    let nfilters = args.tier.pick(8u64, 60);
+    let nfilters = args.tier.pick(12u64, 60);
     let nsrc = args.tier.pick(4usize, 8);
     let results = rt.block_on(async {
         let mut hs = vec![];
@@ -204,7 +216,7 @@ pub fn c16_tls(args: &Args, rt: &tokio::runtime::Runtime, ev: &mut Evidence) {
                 let mut sources: Vec<Ipv4Addr> = (0..nsrc).map(|_| gen_source(&mut rng)).collect();
                 sources.push(Ipv4Addr::new(127, 0, 0, 1));
                 let f = loop {
-                    let f = gen_filter(&mut rng, &sources);
+                    let f = vcommon::filter::gen_filter_indexed(&mut rng, &sources, i);
                     // keep a mix, avoid spending every server on Any
                     if !matches!(f, F::Any) || i % 5 == 0 {
                         break f;
@@ -295,6 +307,17 @@ enum Cert {
     NotYetValid,
     RoleLess,
     OtherRole,
+    /// two Modbus role extensions with different roles (fixtures/pki/mint_extra.py)
+    TwoRoles,
+    /// two Modbus role extensions carrying the same role (authority mode only)
+    TwoRolesSame,
+    /// client role, authority mode, expected server name is the IP literal "127.0.0.1":
+    /// the certificate's only subjectAltName is IP:127.0.0.1
+    IpNameMatch,
+    /// ... the certificate only carries DNS:test.server
+    IpNameDnsOnlyCert,
+    /// ... the certificate carries IP:10.9.8.7
+    IpNameOtherIp,
 }
 
 const OFFERS: [(&str, &str, &str); 3] = [("1.2", "1.2", "tls12_only"), ("1.3", "1.3", "tls13_only"), ("1.2", "1.3", "both")];
@@ -312,7 +335,10 @@ impl Listener<ClientState> for StateLog {
 /// rodbus as TLS server, python as client presenting `cert`
 async fn cell_server(min13: bool, self_signed: bool, authz: bool, offer: (&'static str, &'static str, &'static str), cert: Cert) -> Evidence {
     let mut ev = Evidence::new();
-    let srv = match start_tls_server(self_signed, min13, authz, AddressFilter::Any).await {
+    // in self-signed mode the two-role certificate is the configured (byte-identical) one, so that only
+    // the role extraction can refuse it
+    let expected_peer = if cert == Cert::TwoRoles { "ss_client_tworoles" } else { "ss_client" };
+    let srv = match start_tls_server_expecting(self_signed, min13, authz, AddressFilter::Any, expected_peer).await {
         Ok(s) => s,
         Err(e) => {
             ev.inconclusive(format!("cannot start TLS server: {e}"));
@@ -324,6 +350,10 @@ async fn cell_server(min13: bool, self_signed: bool, authz: bool, offer: (&'stat
         (false, Cert::Valid) => ("client_operator", "client_operator"),
         (false, Cert::OtherRole) => ("client_viewer", "client_viewer"),
         (false, Cert::RoleLess) => ("client_norole", "client_norole"),
+        (false, Cert::TwoRoles) => ("client_tworoles", "client_tworoles"),
+        (false, Cert::TwoRolesSame) => ("client_tworoles_same", "client_tworoles_same"),
+        (true, Cert::TwoRoles) => ("ss_client_tworoles", "ss_client_tworoles"),
+        (true, Cert::TwoRolesSame) => return ev,
         (false, Cert::WrongAuthority) => ("client_wrong_ca", "client_wrong_ca"),
         (false, Cert::Expired) => ("client_expired", "client_expired"),
         (false, Cert::NotYetValid) => ("client_not_yet", "client_not_yet"),
@@ -334,7 +364,8 @@ async fn cell_server(min13: bool, self_signed: bool, authz: bool, offer: (&'stat
         (true, Cert::RoleLess) => ("ss_client_norole", "ss_client_norole"),
         (true, Cert::Expired) => ("ss_client_expired", "ss_client_expired"),
         (true, Cert::NotYetValid) => ("ss_client_not_yet", "ss_client_not_yet"),
-        (_, Cert::WrongName) => return ev, // name checks are a client-side matter
+        // name checks are a client-side matter
+        (_, Cert::WrongName) | (_, Cert::IpNameMatch) | (_, Cert::IpNameDnsOnlyCert) | (_, Cert::IpNameOtherIp) => return ev,
     };
     let ca = if self_signed { "ss_server.cert.pem" } else { "ca1.cert.pem" };
     let res = run_peer(vec![
@@ -357,7 +388,9 @@ async fn cell_server(min13: bool, self_signed: bool, authz: bool, offer: (&'stat
     // in self-signed mode the only acceptable certificate is the configured one, byte for byte
     let cert_ok = match (self_signed, cert) {
         (false, Cert::Valid) | (false, Cert::OtherRole) => true,
-        (false, Cert::RoleLess) => !authz,
+        // without an authorization handler the role is never looked at; with one, "exactly the single
+        // role extension" means none and two are both refused
+        (false, Cert::RoleLess) | (false, Cert::TwoRoles) | (false, Cert::TwoRolesSame) | (true, Cert::TwoRoles) => !authz,
         (true, Cert::Valid) => true,
         _ => false,
     };
@@ -428,6 +461,9 @@ async fn cell_client(min13: bool, self_signed: bool, offer: (&'static str, &'sta
         (false, Cert::WrongName) => ("server_wrong_name", "ca1.cert.pem"),
         (false, Cert::Expired) => ("server_expired", "ca1.cert.pem"),
         (false, Cert::NotYetValid) => ("server_not_yet", "ca1.cert.pem"),
+        (false, Cert::IpNameMatch) => ("server_ip_127_0_0_1", "ca1.cert.pem"),
+        (false, Cert::IpNameDnsOnlyCert) => ("server_valid", "ca1.cert.pem"),
+        (false, Cert::IpNameOtherIp) => ("server_ip_10_9_8_7", "ca1.cert.pem"),
         (true, Cert::Valid) => ("ss_server", "ss_client.cert.pem"),
         (true, Cert::WrongAuthority) => ("ss_server_other", "ss_client.cert.pem"),
         (true, Cert::Expired) => ("ss_server_expired", "ss_client.cert.pem"),
@@ -453,7 +489,8 @@ async fn cell_client(min13: bool, self_signed: bool, offer: (&'static str, &'sta
         };
         TlsClientConfig::self_signed(&fixture(expected), &fixture("ss_client.cert.pem"), &fixture("ss_client.key.pem"), None, min)
     } else {
-        TlsClientConfig::full_pki(Some("test.server".to_string()), &fixture("ca1.cert.pem"), &fixture("client_operator.cert.pem"), &fixture("client_operator.key.pem"), None, min)
+        let expected_name = if matches!(cert, Cert::IpNameMatch | Cert::IpNameDnsOnlyCert | Cert::IpNameOtherIp) { "127.0.0.1" } else { "test.server" };
+        TlsClientConfig::full_pki(Some(expected_name.to_string()), &fixture("ca1.cert.pem"), &fixture("client_operator.cert.pem"), &fixture("client_operator.key.pem"), None, min)
     };
     let cfg = match cfg {
         Ok(c) => c,
@@ -505,7 +542,7 @@ async fn cell_client(min13: bool, self_signed: bool, offer: (&'static str, &'sta
         "tls12_only" => minv <= 12,
         _ => true,
     };
-    let cert_ok = cert == Cert::Valid;
+    let cert_ok = cert == Cert::Valid || cert == Cert::IpNameMatch;
     let admit = offers_ok && cert_ok;
     let want_version = if offer.2 == "tls12_only" { "TLSv1.2" } else { "TLSv1.3" };
     let cell = format!(
@@ -555,13 +592,16 @@ pub fn c09(args: &Args) -> i32 {
     for min13 in [false, true] {
         for self_signed in [false, true] {
             for (oi, _) in OFFERS.iter().enumerate() {
-                for cert in [Cert::Valid, Cert::WrongAuthority, Cert::Expired, Cert::NotYetValid, Cert::RoleLess, Cert::OtherRole] {
+                for cert in [Cert::Valid, Cert::WrongAuthority, Cert::Expired, Cert::NotYetValid, Cert::RoleLess, Cert::OtherRole, Cert::TwoRoles, Cert::TwoRolesSame] {
+                    if self_signed && cert == Cert::TwoRolesSame {
+                        continue;
+                    }
                     for authz in [false, true] {
                         cells.push((true, min13, self_signed, authz, oi, cert));
                     }
                 }
-                for cert in [Cert::Valid, Cert::WrongAuthority, Cert::WrongName, Cert::Expired, Cert::NotYetValid] {
-                    if self_signed && cert == Cert::WrongName {
+                for cert in [Cert::Valid, Cert::WrongAuthority, Cert::WrongName, Cert::Expired, Cert::NotYetValid, Cert::IpNameMatch, Cert::IpNameDnsOnlyCert, Cert::IpNameOtherIp] {
+                    if self_signed && matches!(cert, Cert::WrongName | Cert::IpNameMatch | Cert::IpNameDnsOnlyCert | Cert::IpNameOtherIp) {
                         continue; // no name check in self-signed mode
                     }
                     cells.push((false, min13, self_signed, false, oi, cert));
@@ -603,19 +643,19 @@ pub fn c09(args: &Args) -> i32 {
     let meta = Meta {
         property_id: "C09",
         level: "fault_enumeration",
-        rule: "one evaluation = one cell of the grid {min 1.2, 1.3} x {authority, self-signed} x {authz, no authz (server role)} x {rodbus as server, rodbus as client} x peer offers {TLS1.2 only, TLS1.3 only, both} x peer certificate {valid, wrong authority / other certificate, wrong name (client role), expired, not yet valid, role-less, other role}: a real handshake between the rodbus endpoint and an independent TLS stack (CPython ssl/OpenSSL) which then sends a Modbus write; plus plaintext Modbus sent to the TLS port. Oracle: truth table from the cell coordinates (admit iff certificate valid for the mode and a version >= minimum is offered; negotiated version = highest common), handler/authorization logs must be empty in refused cells, role delivered = role extension of the certificate. Every cell is run: the grid is enumerated completely. distinct = cells".into(),
+        rule: "one evaluation = one cell of the grid {min 1.2, 1.3} x {authority, self-signed} x {authz, no authz (server role)} x {rodbus as server, rodbus as client} x peer offers {TLS1.2 only, TLS1.3 only, both} x peer certificate {valid, wrong authority / other certificate, wrong name (client role), expired, not yet valid, role-less, other role, two role extensions (different / equal); client role with an IP-literal expected name: certificate with that IP as subjectAltName / DNS name only / another IP}: a real handshake between the rodbus endpoint and an independent TLS stack (CPython ssl/OpenSSL) which then sends a Modbus write; plus plaintext Modbus sent to the TLS port. Oracle: truth table from the cell coordinates (admit iff certificate valid for the mode and a version >= minimum is offered; negotiated version = highest common), handler/authorization logs must be empty in refused cells, role delivered = role extension of the certificate. Every cell is run: the grid is enumerated completely. distinct = cells".into(),
         assumptions: vec![
             "validity periods are checked against today's clock only (fixtures: 2010-2011 expired, 2100-2110 not yet valid)".into(),
-            "a certificate with two role extensions is not tested (OpenSSL will not mint one)".into(),
+            "certificates with two role extensions are minted by DER surgery (fixtures/pki/mint_extra.py); a role extension that is not a UTF8String is not tested".into(),
         ],
         exhaustive: Some(true),
         floors: vec![
-            ("handshakes_attempted".into(), 190),
+            ("handshakes_attempted".into(), 244),
             ("admitted_as_expected".into(), 40),
             ("refused_as_expected".into(), 100),
             ("roles_checked".into(), 8),
         ],
-        min_classes: 190,
+        min_classes: 244,
     };
     finish(args, meta, ev, started)
 }
